@@ -330,6 +330,29 @@ def extra_checks(ctx, spec, m, wn, trans, depth, names):
     except Exception as e:
         ctx.violation('raises-zero-abundance:' + type(e).__name__, 'model with a species at zero abundance raised %r' % (e,),
                       spec, dict(molecule=mol))
+    # ---- one model object reused after parameter setters (every retrieval iteration) = a freshly built model
+    cons_all = [j for j, g in enumerate(spec['gases']) if g.get('type', 'constant') == 'constant']
+    if cons_all:
+        try:
+            j = cons_all[int(rng.integers(0, len(cons_all)))]
+            gs = [dict(g) for g in spec['gases']]
+            gs[j]['mix'] = float(gs[j]['mix'] * rng.choice([0.0, 0.3, 2.0]))
+            ratio = float(rng.uniform(0.05, 0.3))
+            FM.spec_install(spec)
+            m[gs[j]['mol']] = gs[j]['mix']
+            m['He_H2'] = ratio
+            wr, dr, tr, _ = m.model()
+            _, _, df, tf, _, _ = T.run_real(dict(spec, gases=gs, ratio=ratio))
+            if not (np.array_equal(np.asarray(tr), tf) and np.array_equal(np.asarray(dr), df)):
+                ctx.violation('stale-state', 'a model reused after model[name] = value differs from a freshly built one', spec,
+                              dict(gas=gs[j]['mol'], mix=gs[j]['mix'], ratio=ratio, reused=np.asarray(dr), fresh=df))
+            m[gs[j]['mol']] = spec['gases'][j]['mix']
+            m['He_H2'] = spec['ratio']
+            FM.spec_install(spec)
+            m.model()
+            ctx.bucket('reuse-rerun')
+        except Exception as e:
+            ctx.violation('stale-state:raises:' + type(e).__name__, 'reused model raised %r after setters' % (e,), spec)
     # ---- H-: opacity proportional to the product of the H and e- abundances; none without electrons
     if any(c['type'] == 'hm' for c in spec['contributions']):
         try:
